@@ -135,7 +135,11 @@ def render(case, decorated):
     stack = case['stack']
     for i, l in enumerate(stack):
         if l['d'] == 'overrides':
-            src += f'class Base{i}:\n' + ('    def f(self):\n        pass\n' if l.get('dir', True) else '    pass\n')
+            own = '    def f(self):\n        pass\n'
+            if l.get('dir', True) == 'inherited':      # the name comes from a grandparent
+                src += f'class GrandBase{i}:\n{own}class Base{i}(GrandBase{i}):\n    pass\n'
+            else:
+                src += f'class Base{i}:\n' + (own if l.get('dir', True) else '    pass\n')
     if any(l['d'] == 'does_same_as_function' for l in stack):
         o = case['other']
         src += fn_src('other', o['sig'], o['async'], 1, dflt_base=60)
